@@ -132,7 +132,13 @@ def main():
         print(f"KNOWN-FINDING: property={pid} {f['id']}: {f['what']} (observed {n}x)")
     rc = 0
     replay_paths = []
-    if unknown:
+    if unknown and a.replay:
+        # replaying a recorded violation: the verdict refers to the file that was replayed
+        for t in unknown[:5]:
+            print(f"VIOLATION property={pid} replay={a.replay}")
+            print(f"  tags={t['tags']} event={t.get('ev')} line={t.get('l')}")
+        rc = 1
+    elif unknown:
         rdir = os.path.join(os.environ.get("VERIF_EVIDENCE_DIR", os.path.join(vlib.VERIF, "evidence")), "replay")
         os.makedirs(rdir, exist_ok=True)
         for i, t in enumerate(unknown[:5]):
@@ -175,7 +181,10 @@ def main():
         ev["level"] = "exploration" if not mc else "model_checking"
     evdir = os.environ.get("VERIF_EVIDENCE_DIR", os.path.join(vlib.VERIF, "evidence"))
     os.makedirs(evdir, exist_ok=True)
-    json.dump(ev, open(os.path.join(evdir, f"{pid}.json"), "w"), indent=1)
+    # a replay run describes one behaviour: it must not replace the evidence of the property's check
+    evname = f"{pid}.json" if not a.replay else os.path.join("replay", f"last-replay-{pid}.json")
+    os.makedirs(os.path.dirname(os.path.join(evdir, evname)), exist_ok=True)
+    json.dump(ev, open(os.path.join(evdir, evname), "w"), indent=1)
     print(f"property={pid} tier={a.tier} seed={seed} behaviours={res.get('behaviours')} events={res.get('events')} "
           f"violations={len(unknown)} known={len(known_hits)} drift={bool(drift)} wall={ev['wall_s']}s")
     return rc
